@@ -7,5 +7,5 @@ trap 'rm -rf "$S"' EXIT
 rsync -a --exclude .git /repo/ "$S/repo/"
 export GOPROXY=off GOSUMDB=off GOTOOLCHAIN=local
 for m in . ./schema; do
-  (cd "$S/repo/$m" && go test -json -vet=off -count=1 -timeout 25m ./...) || true
+  (cd "$S/repo/$m" && go test -json -vet=off -count=1 -timeout 12m ./...) || true
 done
